@@ -238,6 +238,33 @@ def c8_commute(i1: int, i2: int, swapped: bool, which: int) -> bool:
     return got == expected
 
 
+# ---------------------------------------------------------------- class 17: commutation with an optional (may-be-absent) input
+_R17 = RR.RewriteRule(lambda op, x, lo, y: op.Add(op.Clip(x, lo, PI.Var("hi", can_match_none=True)), y), lambda op, x, lo, y, hi: op.Identity(x))
+R17 = _R17.commute()
+
+
+def c17_commute_optional(i1: int, i2: int, swapped: bool, has_hi: bool, hi_is_none: bool) -> bool:
+    """Add(Clip(x, lo, hi?), y) under commute=True: every commuted variant must keep `hi` optional (an absent or None third input
+    of Clip matches), in either operand order of the Add
+    vp-pre: 0 <= i1 < 6 and 0 <= i2 < 6
+    """
+    ops1 = OPS + ["Clip"]
+    ops2 = OPS + ["Sub"]
+    clip_ins = ["a", "lo"] + ([None if hi_is_none else "hi"] if has_hi else [])
+    spec = [("", ops1[i1], clip_ins, [], 1), ("", ops2[i2], ["b", "v0"] if swapped else ["v0", "b"], [], 1)]
+    m, g, n, v = mk(spec, ["a", "b", "lo", "hi"], ["v1"])
+    got = [r.match(m, g, n[1]) for r in R17]
+    matched = [r for r in got if r]
+    expected = ops1[i1] == "Clip" and ops2[i2] == "Add"
+    if bool(matched) != expected:
+        return False
+    if not matched:
+        return True
+    b = matched[0].bindings
+    want_hi = v["hi"] if (has_hi and not hi_is_none) else None
+    return b["x"] is v["a"] and b["lo"] is v["lo"] and b["y"] is v["b"] and b.get("hi") is want_hi
+
+
 # ---------------------------------------------------------------- class 9: three-node pattern, inner sharing
 P9 = RR.Pattern(lambda op, x, y: op.Mul(op.Add(x, y), op.Neg(y)))
 
@@ -524,6 +551,7 @@ OBLIGATIONS = [
     _ob("c12_commute_const", 300, "constant value: bounded symbolic index into 12 values around the tolerance of 1000.0; op-type index, operand order, commuted or plain pattern symbolic"),
     _ob("c13_optional_attrs", 300, "host leaves symbolic: op-type index, presence of each of three attributes, pattern variant (strict with one / two optional attribute variables, default)"),
     _ob("c14_attr_constants", 300, "pattern constant index (8 constants: int, float, str, ints, floats, strings) x node attribute index (11 typed attributes) x op-type index, all symbolic"),
+    _ob("c17_commute_optional", 300, "host leaves symbolic: op-type indices of the inner and the root node, operand order of the root, presence of the optional third input and whether it is None"),
     _ob("c16_or_commit", 300, "host leaves symbolic: two op-type indices and which value (the inner node's output / its input / another input) is the root's second operand"),
     _ob("c15_or_shared_node", 300, "host leaves symbolic: four op-type indices, whether the root's second operand is the node under the first alternative or a sibling, and the sibling's input"),
     _ob("c11_one_of_two_outputs", 300, "host leaves symbolic: op-type indices, which of the two outputs the pattern returns, whether the other output / the inner value is used outside or is a graph output"),
